@@ -439,6 +439,13 @@ func symConv(p *pathState, tdst, tsrc types.Type, x value) value {
 		if b, ok := tdst.Underlying().(*types.Basic); ok && b.Info()&types.IsFloat != 0 {
 			return symFloat{t: x, num: bigOne, den: bigOne}
 		}
+		if b, ok := tdst.Underlying().(*types.Basic); ok && b.Kind() == types.String {
+			// string(rune) of a symbolic code point: only the one-byte (ASCII) case
+			if x.lo != nil && x.hi != nil && x.lo.Sign() >= 0 && x.hi.Cmp(bi(127)) <= 0 {
+				return sstr{[]value{x}}
+			}
+			abort("string(rune) of a symbolic, possibly non-ASCII code point")
+		}
 		abort("conversion of symbolic %s to %s", tsrc, tdst)
 	case symFloat:
 		if b, ok := tdst.Underlying().(*types.Basic); ok && b.Info()&types.IsFloat != 0 {
